@@ -6,6 +6,7 @@
 package flatecut
 
 //@ default mode int
+//@ default heapargs boxed
 
 //@ func loadU64LE
 //@   prop C16
